@@ -27,6 +27,12 @@ type world struct {
 	inTxn   bool
 	log     []string
 	reloads int
+	// solo: the world is driven by one goroutine; a writer slot that is
+	// occupied between two of its calls (outside its own session transaction)
+	// was leaked by an earlier call, and every later write would wait out the
+	// one minute acquisition timeout. Such a world stops executing calls.
+	solo   bool
+	wedged string
 }
 
 func quietOptions(store lungo.Store) lungo.Options {
@@ -160,6 +166,15 @@ func (w *world) abort() error {
 
 // exec runs a call in the current context and logs it.
 func (w *world) exec(op *drv.Op) drv.Res {
+	if w.solo && !w.inTxn && w.wedged == "" && w.engine != nil {
+		if free, active, alive, _ := w.engine.VerifState(); alive && (free != 1 || active) {
+			w.wedged = fmt.Sprintf("the writer slot is occupied between two calls of a single client (free=%d, transaction registered=%v): an earlier call did not release it", free, active)
+			w.note("-- " + w.wedged)
+		}
+	}
+	if w.wedged != "" {
+		return drv.Res{Err: "engine wedged: " + w.wedged}
+	}
 	res := drv.Exec(w.ctx(), w.client, op)
 	w.note(op.String() + "  =>  " + res.String())
 	return res
